@@ -197,6 +197,21 @@ func TestVerif_C36(t *testing.T) {
 			}
 		}
 	}
+	// (b') every byte value at positions spread over one blob path of every scheme
+	for sc, name := range map[string]string{"tag": "library/ubuntu:v1", "shard": "ff85ceb9734a3c2f", "ident": "foo/bar"} {
+		root := "/r.t"
+		p, _ := namepath.New(root, c36Schemes[sc])
+		bp, _ := p.BlobPath(name)
+		for _, i := range []int{0, 1, len(root), len(root) + 1, len(bp) / 2, len(bp) - 12, len(bp) - 6, len(bp) - 5, len(bp) - 1} {
+			if i < 0 || i >= len(bp) {
+				continue
+			}
+			for b := 0; b < 256; b++ {
+				run("name", "scheme="+sc, "root="+verifh.Str(root), "bp="+verifh.Str(bp[:i]+string([]byte{byte(b)})+bp[i+1:]))
+				tr.Count("name_byte_subst", 1)
+			}
+		}
+	}
 	// (c) random roots / names, and arbitrary paths into NameFromBlobPath
 	for i := 0; i < verifh.Scale(1500, 100000); i++ {
 		root := c36Roots[r.Intn(len(c36Roots))]
